@@ -1,4 +1,5 @@
 """U4f: case executor (brush-core/src/interp.rs): first match, `;;` `;&` `;;&`."""
+from .common import runtime_options_item
 from vx.extract import C
 from .exec_common import exec_unit, begin_ast, end_ast, FOOTER
 
@@ -18,6 +19,7 @@ def build(repo, findings):
     u.add(ast.item(r'^pub struct CaseItem ', 'CaseItem').r1(keep_derive=()))
     u.add(ast.item(r'^pub enum CaseItemPostAction ', 'CaseItemPostAction').r1(keep_derive=()))
     end_ast(u)
+    runtime_options_item(u)
     u.prelude('exec/case_spec.rs')
     u.raw('''impl ast::CompoundList {
     #[verifier::external_body]
